@@ -8,6 +8,7 @@ ray cast" over every subset of the magic mask (`Props/C08/R*.lean`, `B*.lean`: 1
 subsets); the lemmas of `Proofs/Magic.lean` lift this to all 2^64 occupancies.
 -/
 import ChessVerif.Props.C08.All
+import ChessVerif.Proofs.MagicGen
 
 namespace Chess.Props.C08
 open Chess Chess.Spec Chess.Magic
@@ -67,5 +68,48 @@ theorem table_lengths : Gen.RookMagic.solLen = 262144 ∧ Gen.BishopMagic.solLen
 /-! Non-vacuity (tests): a rook on d4 with blockers on d6 and f4 -/
 example : Lookup.rookMoves 27 (BB.ofSq 43 ||| BB.ofSq 29) = bbOfList [35, 43, 19, 11, 3, 26, 25, 24, 28, 29] := by
   decide +kernel
+
+/-! ### the generator (`chess-lookup-generator/src/magic.rs`, `Model/MagicGen.lean`)
+
+The embedded tables are judged above entry by entry.  The theorems below are about the PROGRAM that makes such
+tables: whichever multiplier its random search ends up accepting for a square, the table then answers every one of
+the 2^64 occupancies with the ray cast.  (`trySquare` is the acceptance loop over all blocker sets of the square.) -/
+
+/-- the acceptance loop is sound: if it accepts, every blocker set's slot holds that set's solution -/
+theorem generator_fill_sound (magic : BB) (shift offset : Nat) (ps : List MagicGen.Blocker) (data data' : Array BB)
+    (h : MagicGen.fill magic shift offset ps data = some data') (hne : ∀ p ∈ ps, p.solution ≠ 0#64) :
+    ∀ p ∈ ps, data'.getD (MagicGen.indexOf magic shift offset p.puzzle) 0#64 = p.solution :=
+  MagicGen.fill_sound magic shift offset ps data data' h hne
+
+/-- … and leaves every other slot (the regions of the squares done before) alone -/
+theorem generator_fill_frame (magic : BB) (shift offset : Nat) (ps : List MagicGen.Blocker) (data data' : Array BB)
+    (h : MagicGen.fill magic shift offset ps data = some data') :
+    data'.size = data.size ∧
+    ∀ i, (∀ p ∈ ps, MagicGen.indexOf magic shift offset p.puzzle ≠ i) → data'.getD i 0#64 = data.getD i 0#64 :=
+  MagicGen.fill_frame magic shift offset ps data data' h
+
+/-- the enumeration of blocker sets reaches every subset of the relevance mask -/
+theorem generator_blockers_complete (mask : BB) (sol : BB → BB) (x : BB) (hx : x &&& mask = x) :
+    ∃ p ∈ MagicGen.blockersOf mask sol, p.puzzle = x ∧ p.solution = sol x :=
+  MagicGen.blockers_complete mask sol x hx
+
+/-- **generated rook table**: for every square, every relevance mask that covers the inner squares of the rays, every
+multiplier the loop accepts and EVERY occupancy, the slot of the masked occupancy holds the ray-cast attack set -/
+theorem generator_rook (s : Sq) (magic mask : BB) (offset : Nat) (data data' : Array BB)
+    (hm : maskCovers mask rookDirs s = true)
+    (h : MagicGen.trySquare magic mask (rookCast s) offset data = some data') (occ : BB) :
+    data'.getD (MagicGen.indexOf magic (MagicGen.shiftFor mask) offset (mask &&& occ)) 0#64 = rookCast s occ :=
+  MagicGen.rook_generated s magic mask offset data data' hm h occ
+
+/-- **generated bishop table** -/
+theorem generator_bishop (s : Sq) (magic mask : BB) (offset : Nat) (data data' : Array BB)
+    (hm : maskCovers mask bishopDirs s = true)
+    (h : MagicGen.trySquare magic mask (bishopCast s) offset data = some data') (occ : BB) :
+    data'.getD (MagicGen.indexOf magic (MagicGen.shiftFor mask) offset (mask &&& occ)) 0#64 = bishopCast s occ :=
+  MagicGen.bishop_generated s magic mask offset data data' hm h occ
+
+/-- non-vacuity: the embedded multiplier of the bishop on a1 is accepted by the modelled loop on an empty table -/
+example : (MagicGen.trySquare (Lookup.bishopMagic 0).factor (Lookup.bishopMagic 0).mask (bishopCast 0) 0
+    (Array.replicate 64 0#64)).isSome = true := by decide +kernel
 
 end Chess.Props.C08
